@@ -22,7 +22,7 @@ func init() {
 }
 
 func runC02(c *Ctx) {
-	c.Rule("C02.R1", "IDX", "host-table hits re-validated by HostRule.Match with the hashed hostname", 1)
+	c.Rule("C02.R1", "IDX", "host-table hits re-validated by HostRule.Match with the hashed hostname; whole bucket scanned", 2)
 	c.Rule("C02.R2", "IDX", "every hostname of a host rule is keyed", 1)
 	c.Rule("C02.R3", "WIRE", "constructor routes *HostRule to the host table and host-level *NetworkRule (only those) to the network engine", 2)
 	c.Rule("C02.R4", "PDT", "MatchRequest decision table", 5)
@@ -102,6 +102,28 @@ func runC02(c *Ctx) {
 		}
 		c.Check(bad == "", "C02.R5", shortFn(probe)+": flag == (len(result) > 0)", probe.Pos(), fmt.Sprintf("%d return sites", len(s.Rets)), bad)
 	}
+
+	// bucket scan completeness: every index of the bucket is examined
+	{
+		g := NewGate(c.P)
+		g.Inline = inlineOnly()
+		s := g.Eval(probe)
+		bad := "no bucket scan"
+		for _, l := range loopsOf(probe) {
+			ro := rangedOver(l)
+			if ro == nil {
+				continue
+			}
+			if ro.Full && onlyExhaustionExit(l) {
+				bad = ""
+			} else {
+				bad = "the scan over the bucket can stop before its end (early exit): entries after an unreadable or non-matching one are never returned"
+			}
+		}
+		_ = s
+		c.Check(bad == "", "C02.R1", shortFn(probe)+": the whole bucket is scanned", probe.Pos(), "complete range, no early exit", bad)
+	}
+	importRules(c, runC11, map[string]string{"C11.R5": "C02.R7"}, map[string]string{"C02.R7": "the constructor sees every rule of every list: storage scanner visits all lists, indexes are retrievable (shared with C11.R5)"})
 
 	// ---------- R2 ----------
 	{
@@ -300,13 +322,13 @@ func runC02(c *Ctx) {
 			} else {
 				var is4 Ref = False
 				for _, at := range u.AtomsOf(e4.Cond) {
-					if at.Op == "call" && at.Aux == "(net/netip.Addr).Is4" && u.Mentions(at, func(x *E) bool { return x == r4 }) {
+					if at.Op == "call" && at.Aux == "(net/netip.Addr).Is4" && at.Args[0].Op == "field" && at.Args[0].Aux == "IP" && at.Args[0].Args[0] == r4 {
 						is4 = u.Atom(at)
 					}
 				}
 				common := u.bdd.Or(e4.Cond, e6.Cond)
 				if is4 == False || e4.Cond != u.bdd.And(common, is4) || e6.Cond != u.bdd.And(common, u.bdd.Not(is4)) {
-					bad = "the host rule is not filed under V4 exactly when its address Is4() and under V6 otherwise"
+					bad = "the host rule is not filed under V4 exactly when its own address (rule.IP, not a converted copy) Is4() and under V6 otherwise: e.g. an IPv4-mapped IPv6 address must stay in the IPv6 group"
 				}
 				// every *HostRule of the lookup result is filed
 				loops := loopsOf(mr)
